@@ -25,7 +25,8 @@ def match_known(known, pid, sig):
         if k.get("status") != "known" or k["property"] != pid:
             continue
         for pat in k["signatures"]:
-            if fnmatch.fnmatchcase(sig, pat):
+            # only * and ? are wildcards: signatures contain literal brackets
+            if pat == sig or fnmatch.fnmatchcase(sig, pat.replace("[", "[[]")):
                 return k
     return None
 
